@@ -4,7 +4,10 @@
 //! then "kills the server" (the calls still in flight are never resumed, the cache object is
 //! abandoned) and opens a fresh `DiskCache` on the same directory.
 //!
-//! legs:  `disk`  case   = ( cap order ( init ... ) ( thread ... ) ( tid ... ) [ ( key ... ) ] )
+//! legs:  `disk`  case   = ( cap order ( init ... ) ( thread ... ) ( tid ... ) [ ( key ... ) [ ( i kind m ) ] ] )
+//!                         optional ( i kind m ): lock-scope probe — the call stepped at schedule position i is parked
+//!                         at its first utimensat (kind utimes) / unlink (kind unlink) of an entry file and the next m
+//!                         steps are attempted inside that window; they just wait where the call holds the cache lock
 //!                         optional last list: keys whose shard directory <root>/x/y is made a mount point (a tiny
 //!                         tmpfs in a private mount namespace), so that rename(temp, final) fails with EXDEV;
 //!                         the result is ( skipped ) where mounting is not possible
@@ -128,6 +131,59 @@ pub unsafe extern "C" fn write(fd: libc::c_int, buf: *const libc::c_void, n: lib
     libc::syscall(libc::SYS_write, fd, buf, n) as libc::ssize_t
 }
 
+/// A probe for lock scope: the controller may arm ONE (model thread, system call) pair; when that thread
+/// reaches that call on an entry file, it parks there ("probe") and the controller tries to run the next
+/// steps of the schedule inside the window.  Where the code makes the call under the cache lock (main: the
+/// look-up, utimes and open of a lookup are one critical section, and so are eviction and unlink) those
+/// steps simply block until the call is over; where it does not, they happen in the middle of it.
+unsafe fn probe_hook(kind: &str, path: *const libc::c_char) {
+    if path.is_null() {
+        return;
+    }
+    let ctl = match CUR_CTL.lock() {
+        Ok(g) => g.clone(),
+        Err(_) => None,
+    };
+    let ctl = match ctl {
+        Some(c) => c,
+        None => return,
+    };
+    let bytes = std::ffi::CStr::from_ptr(path).to_bytes();
+    if bytes.windows(12).any(|w| w == b"/.sccachetmp") {
+        return;
+    }
+    let me = std::thread::current().id();
+    {
+        let mut st = ctl.st.lock().unwrap();
+        let hit = match (&st.probe, st.bound.get(&me)) {
+            (Some((t, k)), Some(b)) => t == b && k == kind,
+            _ => false,
+        };
+        if !hit {
+            return;
+        }
+        st.probe = None;
+    }
+    ctl.at_point("probe");
+}
+
+#[no_mangle]
+pub unsafe extern "C" fn utimensat(
+    dirfd: libc::c_int,
+    path: *const libc::c_char,
+    times: *const libc::timespec,
+    flags: libc::c_int,
+) -> libc::c_int {
+    probe_hook("utimes", path);
+    libc::syscall(libc::SYS_utimensat, dirfd, path, times, flags) as libc::c_int
+}
+
+#[no_mangle]
+pub unsafe extern "C" fn unlink(path: *const libc::c_char) -> libc::c_int {
+    probe_hook("unlink", path);
+    libc::syscall(libc::SYS_unlinkat, libc::AT_FDCWD, path, 0) as libc::c_int
+}
+
 // ------------------------------------------------------------------ controller
 
 #[derive(Default)]
@@ -142,6 +198,8 @@ struct CtlState {
     done: HashMap<usize, Sx>,
     free_run: bool,
     seq: u64,
+    /// armed lock-scope probe: (model thread, "utimes" | "unlink")
+    probe: Option<(usize, String)>,
 }
 
 struct Ctl {
@@ -190,7 +248,11 @@ impl Ctl {
 
     /// wait until thread t is parked (at a park newer than `after`) or has returned
     fn wait_parked_or_done(&self, t: usize, after: u64) -> bool {
-        let deadline = Instant::now() + STEP_TIMEOUT;
+        self.wait_for(t, after, STEP_TIMEOUT)
+    }
+
+    fn wait_for(&self, t: usize, after: u64, dur: Duration) -> bool {
+        let deadline = Instant::now() + dur;
         let mut st = self.st.lock().unwrap();
         loop {
             if st.done.contains_key(&t) {
@@ -437,6 +499,86 @@ fn keystr(x: &Sx) -> String {
     String::from_utf8_lossy(x.bytes()).into_owned()
 }
 
+const PROBE_TIMEOUT: Duration = Duration::from_millis(250);
+
+struct Begun {
+    point: String,
+    limited: bool,
+}
+
+/// bookkeeping of the stepping loop
+struct Cx {
+    clock: i64,
+    temp_of: HashMap<usize, PathBuf>,
+    seen_tmp: Vec<PathBuf>,
+    chunks_done: Vec<u64>,
+    stuck: Vec<bool>,
+}
+
+impl Cx {
+    /// what the next model step of thread t means for the real call; None = nothing to release
+    fn begin(&mut self, ctl: &Ctl, threads: &[Th], t: usize) -> Option<Begun> {
+        if t >= threads.len() || self.stuck[t] || ctl.is_done(t) {
+            return None;
+        }
+        let point = ctl.point_of(t).unwrap_or_default();
+        let mut limit = None;
+        match &threads[t] {
+            Th::Put { chunks, fail, elen, .. } if point == "put.reserved" => {
+                self.chunks_done[t] += 1;
+                if *fail {
+                    // the model writes `chunks` pieces and then sees the failure: the real write_all (which
+                    // fails half way) and the abandon that follows happen with the model's Abandon step
+                    if self.chunks_done[t] <= *chunks {
+                        return None;
+                    }
+                    limit = Some(*elen / 2);
+                } else if self.chunks_done[t] < *chunks {
+                    return None; // an earlier chunk of the model's write: the real write happens with the last one
+                }
+            }
+            Th::PpPut { chunks, .. } if point == "pp.reserved" => {
+                // no park point between the write and the commit section: both happen with the model's Commit
+                self.chunks_done[t] += 1;
+                if self.chunks_done[t] <= *chunks {
+                    return None;
+                }
+            }
+            _ => {}
+        }
+        if let Some(n) = limit {
+            set_fsize_limit(Some(n));
+        }
+        Some(Begun { point, limited: limit.is_some() })
+    }
+
+    fn fail(&mut self, t: usize, b: &Begun) {
+        if b.limited {
+            set_fsize_limit(None);
+        }
+        self.stuck[t] = true;
+    }
+
+    /// the call has parked at its next point or returned
+    fn end(&mut self, ctl: &Ctl, root: &Path, t: usize, b: &Begun) {
+        if b.limited {
+            set_fsize_limit(None);
+        }
+        if b.point == "put.before_reserve" || b.point == "pp.before_reserve" {
+            let now = ctl.point_of(t);
+            for p in temp_files(root) {
+                if !self.seen_tmp.contains(&p) {
+                    self.seen_tmp.push(p.clone());
+                    if matches!(now.as_deref(), Some("put.reserved") | Some("pp.reserved")) {
+                        self.temp_of.insert(t, p);
+                    }
+                }
+            }
+        }
+        normalise_mtimes(root, &mut self.clock);
+    }
+}
+
 fn run_case(case: &Sx) -> Sx {
     let cap = case.arg(0).u64();
     let pp_first = case.arg(1).u64() != 0;
@@ -611,65 +753,76 @@ fn run_case(case: &Sx) -> Sx {
     }
 
     // the schedule
-    let mut clock: i64 = 1000;
-    let mut temp_of: HashMap<usize, PathBuf> = HashMap::new();
-    let mut seen_tmp: Vec<PathBuf> = temp_files(&root);
-    let mut chunks_done: Vec<u64> = vec![0; threads.len()];
-    for s in case.arg(4).list() {
-        let t = s.u64() as usize;
-        if t >= threads.len() || stuck[t] || ctl.is_done(t) {
-            continue;
-        }
-        let point = ctl.point_of(t).unwrap_or_default();
-        let mut limit = None;
-        match &threads[t] {
-            Th::Put { chunks, fail, elen, .. } if point == "put.reserved" => {
-                chunks_done[t] += 1;
-                if *fail {
-                    // the model writes `chunks` pieces and then sees the failure: the real write_all (which
-                    // fails half way) and the abandon that follows happen with the model's Abandon step
-                    if chunks_done[t] <= *chunks {
-                        continue;
-                    }
-                    limit = Some(*elen / 2);
-                } else if chunks_done[t] < *chunks {
-                    continue; // an earlier chunk of the model's write: the real write happens with the last one
-                }
-            }
-            Th::PpPut { chunks, .. } if point == "pp.reserved" => {
-                // no park point between the write and the commit section: both happen with the model's Commit
-                chunks_done[t] += 1;
-                if chunks_done[t] <= *chunks {
-                    continue;
-                }
-            }
-            _ => {}
-        }
-        if let Some(n) = limit {
-            set_fsize_limit(Some(n));
+    let mut cx = Cx {
+        clock: 1000,
+        temp_of: HashMap::new(),
+        seen_tmp: temp_files(&root),
+        chunks_done: vec![0; threads.len()],
+        stuck,
+    };
+    let sched: Vec<usize> = case.arg(4).list().iter().map(|s| s.u64() as usize).collect();
+    // optional lock-scope probe: ( i kind m ) = during step i, at its first `kind` call, try steps i+1 .. i+m
+    let probe: Option<(usize, String, usize)> = if case.list().len() > 6 && case.arg(6).list().len() == 3 {
+        Some((case.arg(6).arg(0).u64() as usize, keystr(case.arg(6).arg(1)), case.arg(6).arg(2).u64() as usize))
+    } else {
+        None
+    };
+    let mut idx = 0;
+    while idx < sched.len() {
+        let t = sched[idx];
+        let here = idx;
+        idx += 1;
+        let b = match cx.begin(&ctl, &threads, t) {
+            Some(b) => b,
+            None => continue,
+        };
+        let armed = matches!(&probe, Some((i, _, _)) if *i == here);
+        if let Some((_, kind, _)) = probe.as_ref().filter(|_| armed) {
+            ctl.st.lock().unwrap().probe = Some((t, kind.clone()));
         }
         let seq = ctl.release(t);
         let arrived = ctl.wait_parked_or_done(t, seq);
-        if limit.is_some() {
-            set_fsize_limit(None);
-        }
+        ctl.st.lock().unwrap().probe = None;
         if !arrived {
-            stuck[t] = true;
+            cx.fail(t, &b);
             continue;
         }
-        if point == "put.before_reserve" || point == "pp.before_reserve" {
-            let now = ctl.point_of(t);
-            for p in temp_files(&root) {
-                if !seen_tmp.contains(&p) {
-                    seen_tmp.push(p.clone());
-                    if matches!(now.as_deref(), Some("put.reserved") | Some("pp.reserved")) {
-                        temp_of.insert(t, p);
-                    }
+        if ctl.point_of(t).as_deref() == Some("probe") {
+            let mut left = probe.as_ref().map(|p| p.2).unwrap_or(0);
+            let mut pending: Option<(usize, Begun, u64)> = None;
+            while left > 0 && idx < sched.len() && sched[idx] != t {
+                let u = sched[idx];
+                idx += 1;
+                left -= 1;
+                let bu = match cx.begin(&ctl, &threads, u) {
+                    Some(b) => b,
+                    None => continue,
+                };
+                let sq = ctl.release(u);
+                if ctl.wait_for(u, sq, PROBE_TIMEOUT) {
+                    cx.end(&ctl, &root, u, &bu);
+                } else {
+                    pending = Some((u, bu, sq)); // it waits for the lock the probed call holds
+                    break;
                 }
             }
+            let seq2 = ctl.release(t);
+            let ok = ctl.wait_parked_or_done(t, seq2);
+            if let Some((u, bu, sq)) = pending {
+                if ctl.wait_parked_or_done(u, sq) {
+                    cx.end(&ctl, &root, u, &bu);
+                } else {
+                    cx.fail(u, &bu);
+                }
+            }
+            if !ok {
+                cx.fail(t, &b);
+                continue;
+            }
         }
-        normalise_mtimes(&root, &mut clock);
+        cx.end(&ctl, &root, t, &b);
     }
+    let Cx { mut clock, temp_of, chunks_done, stuck, .. } = cx;
 
     // results of the calls
     let mut results = vec![];
